@@ -115,6 +115,16 @@ impl TrainerConfig {
         }
     }
 
+    #[cfg(vibrato_verif)]
+    pub(crate) fn verif_parse_rewrite_config<R>(
+        rdr: R,
+    ) -> Result<(FeatureRewriter, FeatureRewriter, FeatureRewriter)>
+    where
+        R: Read,
+    {
+        Self::parse_rewrite_config(rdr)
+    }
+
     fn parse_rewrite_config<R>(
         rdr: R,
     ) -> Result<(FeatureRewriter, FeatureRewriter, FeatureRewriter)>
